@@ -32,9 +32,10 @@ theorem units_distinct : uText ≠ uOnoff ∧ uText ≠ uDatetime ∧ uOnoff ≠
 theorem numericUnit_iff (u : Str) : numericUnit u = true ↔ u ≠ uText ∧ u ≠ uOnoff ∧ u ≠ uDatetime := by
   simp [numericUnit, and_assoc]
 
-theorem strRepresentable_ne (s : Str) (h : strRepresentable s = true) : s ≠ [] ∧ s.head? ≠ some '=' := by
+theorem strRepresentable_ne (s : Str) (h : strRepresentable s = true) :
+    s ≠ [] ∧ s.head? ≠ some '=' ∧ s.length ≤ maxCellChars := by
   simp [strRepresentable] at h
-  exact ⟨by intro e; simp [e] at h, h.1.2⟩
+  exact ⟨by intro e; simp [e] at h, h.1.1.2, h.2⟩
 
 /-- `col == 0` only matters for an empty text: well-formed values are written the same in every position -/
 theorem represent_wf (naRep u : Str) (k : Nat) (v : Val) (h : valOK u v = true) :
@@ -55,10 +56,14 @@ theorem represent_wf (naRep u : Str) (k : Nat) (v : Val) (h : valOK u v = true) 
     simp [represent, Val.isNa, writtenCell, h12.symm]
   | dt t =>
     simp only [valOK, Bool.and_eq_true, beq_iff_eq] at h
-    obtain ⟨rfl, _⟩ := h
+    obtain ⟨rfl, hd⟩ := h
     by_cases ht : t = NaT
     · simp [represent, Val.isNa, writtenCell, ht, h13.symm]
-    · simp [represent, Val.isNa, writtenCell, ht, h13.symm, h23.symm]
+    · have hnd : t.contains '.' = false := by
+        have : dtRepresentable t = true := by simpa [ht] using hd
+        simp only [dtRepresentable, Bool.and_eq_true, Bool.not_eq_true'] at this
+        exact this.1.1.1
+      simp [represent, Val.isNa, writtenCell, ht, h13.symm, h23.symm, truncMicro_of_no_dot t hnd]
   | num t =>
     simp only [valOK, Bool.and_eq_true] at h
     obtain ⟨hu, _⟩ := h
@@ -72,18 +77,20 @@ theorem represent_wf (naRep u : Str) (k : Nat) (v : Val) (h : valOK u v = true) 
     obtain ⟨u1, u2, u3⟩ := (numericUnit_iff u).1 hu
     simp [represent, Val.isNa, writtenCell, u1, u2, u3]
 
-theorem storeCell_str (s : Str) (hne : s ≠ []) (heq : s.head? ≠ some '=') : storeCell (.str s) = .str s := by
+theorem storeCell_str (s : Str) (hne : s ≠ []) (heq : s.head? ≠ some '=') (hlen : s.length ≤ maxCellChars) :
+    storeCell (.str s) = .str s := by
   cases s with
   | nil => exact absurd rfl hne
   | cons c cs =>
     have hc : c ≠ '=' := by simpa using heq
+    have ht : (c :: cs).take maxCellChars = c :: cs := List.take_of_length_le hlen
     unfold storeCell
     split <;> simp_all
 
 theorem storeCell_textOK (s : Str) (h : textOK s = true) : storeCell (.str s) = .str s := by
   simp only [textOK, Bool.and_eq_true] at h
   have := strRepresentable_ne s h.1
-  exact storeCell_str s this.1 this.2
+  exact storeCell_str s this.1 this.2.1 this.2.2
 
 /-! ### `na_rep` -/
 
@@ -95,7 +102,7 @@ theorem naRep_facts (naRep : Str) (h : naRepOK naRep = true) :
   have hm := (C02.isMissingMarker_iff naRep).1 h1
   refine ⟨?_, hm, ?_, h3, h4⟩
   · have := strRepresentable_ne naRep h2
-    exact storeCell_str naRep this.1 this.2
+    exact storeCell_str naRep this.1 this.2.1 this.2.2
   · intro e
     unfold C02.Spec.IsMarker at hm
     rw [e] at hm
@@ -134,7 +141,7 @@ theorem intTok_ne_overflow (i : Int) : intToStr i ++ ".0".toList ≠ overflowTok
 /-- representable text has no NUL character, so numpy's fixed-width array keeps it whole -/
 theorem rstripNul_textOK (s : Str) (h : textOK s = true) : rstripNul s = s := by
   simp only [textOK, strRepresentable, Bool.and_eq_true, List.all_eq_true] at h
-  have hch := h.1.2
+  have hch := h.1.1.2
   unfold rstripNul
   rw [dropWhile_eq_self]
   · simp
@@ -799,7 +806,9 @@ theorem excelWF_facts (t : TableVal) (h : excelWF t = true) :
     distinct (t.columns.map (·.name)) = true ∧ (∀ c ∈ t.columns, columnOK t.nRows c = true) ∧
     (t.transposed = true → ∀ c ∈ t.columns, notMarker c.name = true) ∧
     (t.transposed = false → ∀ c cs, t.columns = c :: cs → firstColumnOK c = true) := by
-  simp only [excelWF, Bool.and_eq_true, Bool.not_eq_true', bne_iff_ne, ne_eq, List.all_eq_true,
+  simp only [excelWF, Bool.and_eq_true] at h
+  replace h := h.2
+  simp only [excelWFCore, Bool.and_eq_true, Bool.not_eq_true', bne_iff_ne, ne_eq, List.all_eq_true,
     Bool.or_eq_true] at h
   obtain ⟨⟨⟨⟨⟨⟨⟨⟨⟨_, h1⟩, h2⟩, h3⟩, h4⟩, h5⟩, h6⟩, h7⟩, h8⟩, h9⟩ := h
   refine ⟨h1, h2, ?_, ?_, h5, h6, h7, h8, ?_, ?_⟩
@@ -819,10 +828,21 @@ theorem dropWhile_eq_nil_of_all {α : Type} (p : α → Bool) (l : List α) (h :
   | cons x xs ih =>
     simp [List.dropWhile_cons, h x (by simp), ih (fun y hy => h y (List.mem_cons_of_mem _ hy))]
 
-theorem header_facts (t : TableVal) :
+/-- the size clauses of `excelWF` -/
+theorem excelWF_size (t : TableVal) (h : excelWF t = true) :
+    t.name.length + 3 ≤ maxCellChars ∧ (destCell t).length ≤ maxCellChars ∧ (dimOf t).trueCols ≤ maxColumns := by
+  simp only [excelWF, sizeOK, Bool.and_eq_true, decide_eq_true_eq] at h
+  exact ⟨h.1.1.1, h.1.1.2, h.1.2⟩
+
+theorem header_length_le (t : TableVal) : (header t).length ≤ t.name.length + 3 := by
+  unfold header
+  cases t.transposed <;> simp <;> omega
+
+theorem header_facts (t : TableVal) (hlen : t.name.length + 3 ≤ maxCellChars) :
     storeCell (.str (header t)) = .str (header t) ∧
     (header t).drop 2 = t.name ++ (if t.transposed then ['*'] else []) := by
-  refine ⟨storeCell_str _ (by simp [header]) (by simp [header]), rfl⟩
+  refine ⟨storeCell_str _ (by simp [header]) (by simp [header])
+    (Nat.le_trans (header_length_le t) hlen), rfl⟩
 
 theorem head_joinWith (x : Str) (rest : List Str) (hx : x ≠ []) :
     (joinWith ' ' (x :: rest)).head? = x.head? := by
@@ -833,7 +853,8 @@ theorem head_joinWith (x : Str) (rest : List Str) (hx : x ≠ []) :
     | nil => exact absurd rfl hx
     | cons a as => simp [joinWith]
 
-theorem destCell_facts (t : TableVal) (hne : t.destinations ≠ []) (hok : ∀ d ∈ t.destinations, destOK d = true) :
+theorem destCell_facts (t : TableVal) (hne : t.destinations ≠ []) (hok : ∀ d ∈ t.destinations, destOK d = true)
+    (hlen : (destCell t).length ≤ maxCellChars) :
     storeCell (.str (destCell t)) = .str (destCell t) ∧ plainFirst (.str (destCell t)) = true := by
   have hf := fun d hd => destOK_facts d (hok d hd)
   have hne' : destCell t ≠ [] := joinWith_ne_nil _ hne (fun d hd => (hf d hd).1)
@@ -845,7 +866,7 @@ theorem destCell_facts (t : TableVal) (hne : t.destinations ≠ []) (hok : ∀ d
   have hhead : (destCell t).head? = x.head? := by
     unfold destCell; rw [hxs]; exact head_joinWith x rest hx.1
   constructor
-  · exact storeCell_str _ hne' (by rw [hhead]; exact hx.2.2.2.2.2)
+  · exact storeCell_str _ hne' (by rw [hhead]; exact hx.2.2.2.2.2) hlen
   · -- not blank: the first character is no space; no marker: no leading star, no colon
     obtain ⟨a, as, hxa⟩ : ∃ a as, x = a :: as := by
       cases x with
@@ -907,8 +928,8 @@ theorem storeRow_single (W : Nat) (s : Str) (h : storeCell (.str s) = .str s) :
 theorem layout_block_nocols (naRep : Str) (t : TableVal) (h : excelWF t = true) (W : Nat) (hc : t.columns = []) :
     layout ((tableBlock naRep t).map (storeRow W)) = .ok ⟨t.name, t.transposed, t.destinations, [], [], []⟩ := by
   obtain ⟨_, w2, _, w4, w5, w6, _⟩ := excelWF_facts t h
-  obtain ⟨hh1, hh2⟩ := header_facts t
-  obtain ⟨hd1, _⟩ := destCell_facts t w4 w5
+  obtain ⟨hh1, hh2⟩ := header_facts t (excelWF_size t h).1
+  obtain ⟨hd1, _⟩ := destCell_facts t w4 w5 (excelWF_size t h).2.1
   have hdest : destinations (.str (destCell t)) = t.destinations := destinations_wf _ w4 w5 w6
   simp only [tableBlock, hc, List.isEmpty_nil, if_true, List.map_cons, List.map_nil,
     storeRow_single W _ hh1, storeRow_single W _ hd1]
@@ -976,8 +997,8 @@ theorem storedBlock_rowwise (naRep : Str) (t : TableVal) (h : excelWF t = true) 
       ((unitsOf t).map Cell.str ++ List.replicate (W - t.columns.length) .none) ::
       (transposeN (colsOf naRep t) t.nRows).map (fun r => r ++ List.replicate (W - t.columns.length) .none) := by
   obtain ⟨_, _, _, w4, w5, _, _, w8, _, _⟩ := excelWF_facts t h
-  obtain ⟨hh1, _⟩ := header_facts t
-  obtain ⟨hd1, _⟩ := destCell_facts t w4 w5
+  obtain ⟨hh1, _⟩ := header_facts t (excelWF_size t h).1
+  obtain ⟨hd1, _⟩ := destCell_facts t w4 w5 (excelWF_size t h).2.1
   have hcf := fun c hc => columnOK_facts t.nRows c (w8 c hc)
   have hemp : t.columns.isEmpty = false := by cases hcs : t.columns <;> simp_all
   have hN := storeRow_eq W _ _ (storeCell_names t.columns (fun c => c.name) (fun c hc => (hcf c hc).1))
@@ -1014,7 +1035,7 @@ theorem layout_block_rowwise (naRep : Str) (t : TableVal) (h : excelWF t = true)
     layout ((tableBlock naRep t).map (storeRow W)) =
       .ok ⟨t.name, false, t.destinations, namesOf t, unitsOf t, transposeN (colsOf naRep t) t.nRows⟩ := by
   obtain ⟨_, w2, _, w4, w5, w6, _, w8, _, _⟩ := excelWF_facts t h
-  obtain ⟨_, hh2⟩ := header_facts t
+  obtain ⟨_, hh2⟩ := header_facts t (excelWF_size t h).1
   have hcf := fun c hc => columnOK_facts t.nRows c (w8 c hc)
   rw [storedBlock_rowwise naRep t h W hc ht,
     layout_rowwise_explicit (header t) (destCell t) _ _ (namesOf t) (unitsOf t) _ _
@@ -1190,8 +1211,8 @@ theorem storedBlock_transposed (naRep : Str) (t : TableVal) (h : excelWF t = tru
       (tripOf naRep t).map (fun x => Cell.str x.1 :: Cell.str x.2.1 ::
         (x.2.2 ++ List.replicate (W - (t.nRows + 2)) .none)) := by
   obtain ⟨_, _, _, w4, w5, _, _, w8, _, _⟩ := excelWF_facts t h
-  obtain ⟨hh1, _⟩ := header_facts t
-  obtain ⟨hd1, _⟩ := destCell_facts t w4 w5
+  obtain ⟨hh1, _⟩ := header_facts t (excelWF_size t h).1
+  obtain ⟨hd1, _⟩ := destCell_facts t w4 w5 (excelWF_size t h).2.1
   have hcf := fun c hc => columnOK_facts t.nRows c (w8 c hc)
   have hemp : t.columns.isEmpty = false := by cases hcs : t.columns <;> simp_all
   unfold tableBlock layoutTable tripOf
@@ -1213,7 +1234,7 @@ theorem layout_block_transposed (naRep : Str) (t : TableVal) (h : excelWF t = tr
     layout ((tableBlock naRep t).map (storeRow W)) =
       .ok ⟨t.name, true, t.destinations, namesOf t, unitsOf t, transposeN (colsOf naRep t) t.nRows⟩ := by
   obtain ⟨_, w2, _, w4, w5, w6, _, w8, _, _⟩ := excelWF_facts t h
-  obtain ⟨_, hh2⟩ := header_facts t
+  obtain ⟨_, hh2⟩ := header_facts t (excelWF_size t h).1
   have hcf := fun c hc => columnOK_facts t.nRows c (w8 c hc)
   have hdest : destinations (.str (destCell t)) = t.destinations := destinations_wf _ w4 w5 w6
   have hlast : ((header t).drop 2).getLast? = some '*' := by rw [hh2, ht]; simp
@@ -1289,8 +1310,8 @@ theorem block_kinds (naRep : Str) (hna : naRepOK naRep = true) (t : TableVal) (h
     ∃ hd plains, (tableBlock naRep t).map (storeRow W) = hd :: plains ∧ rowKind hd = .tbl ∧
       ∀ r ∈ plains, rowKind r = .plain := by
   obtain ⟨_, _, _, w4, w5, _, _, w8, w9, w10⟩ := excelWF_facts t h
-  obtain ⟨hh1, _⟩ := header_facts t
-  obtain ⟨hd1, hd2⟩ := destCell_facts t w4 w5
+  obtain ⟨hh1, _⟩ := header_facts t (excelWF_size t h).1
+  obtain ⟨hd1, hd2⟩ := destCell_facts t w4 w5 (excelWF_size t h).2.1
   have hcf := fun c hc => columnOK_facts t.nRows c (w8 c hc)
   have hdest : rowKind (Cell.str (destCell t) :: List.replicate (W - 1) Cell.none) = .plain := rowKind_plain _ _ hd2
   cases hc : t.columns with
@@ -1873,5 +1894,56 @@ theorem fits_layout (naRep : Str) (sep : Nat) (tables : List TableVal) (N W i : 
         apply ih
         · rw [rawRows_length_cons, layoutTable_length] at hN; omega
         · exact fun x hx => hW x (List.mem_cons_of_mem _ hx)
+
+/-! ## M. sheet width of well-formed tables -/
+
+theorem foldl_max_le (rows : List Row) (a B : Nat) (ha : a ≤ B) (h : ∀ r ∈ rows, r.length ≤ B) :
+    rows.foldl (fun m r => max m r.length) a ≤ B := by
+  induction rows generalizing a with
+  | nil => simpa using ha
+  | cons x xs ih =>
+    simp only [List.foldl_cons]
+    apply ih
+    · have := h x (by simp); omega
+    · exact fun r hr => h r (List.mem_cons_of_mem _ hr)
+
+theorem width_le (rows : List Row) (B : Nat) (h : ∀ r ∈ rows, r.length ≤ B) : width rows ≤ B :=
+  foldl_max_le rows 0 B (Nat.zero_le _) h
+
+/-- no row of a well-formed table is wider than openpyxl can address -/
+theorem layoutTable_row_le (naRep : Str) (t : TableVal) (h : excelWF t = true) :
+    ∀ r ∈ layoutTable naRep t, r.length ≤ maxColumns := by
+  obtain ⟨_, _, _, _, _, _, _, w8, _, _⟩ := excelWF_facts t h
+  have hsz := (excelWF_size t h).2.2
+  simp only [dimOf, Dim.trueCols] at hsz
+  have h1 : 1 ≤ maxColumns := by decide
+  intro r hr
+  simp only [layoutTable, List.mem_cons] at hr
+  rcases hr with rfl | rfl | hr
+  · simpa using h1
+  · simpa using h1
+  · cases ht : t.transposed
+    · simp only [ht, Bool.false_eq_true, if_false] at hr hsz
+      simp only [List.mem_cons, List.mem_map, List.mem_range] at hr
+      rcases hr with rfl | rfl | ⟨i, _, rfl⟩
+      · simpa using hsz
+      · simpa using hsz
+      · rw [reprRow_length]; exact hsz
+    · simp only [ht, if_true] at hr hsz
+      simp only [List.mem_map] at hr
+      obtain ⟨c, hc, rfl⟩ := hr
+      have := (columnOK_facts t.nRows c (w8 c hc)).2.2.2.2.1
+      simp only [List.length_cons, reprCol_length, this]
+      omega
+
+theorem width_layoutSheet_le (naRep : Str) (sep : Nat) (tables : List TableVal)
+    (hwf : ∀ t ∈ tables, excelWF t = true) : width (layoutSheet naRep sep tables) ≤ maxColumns := by
+  apply width_le
+  intro r hr
+  simp only [layoutSheet, List.mem_flatMap, List.mem_append] at hr
+  obtain ⟨t, ht, hr | hr⟩ := hr
+  · exact layoutTable_row_le naRep t (hwf t ht) r hr
+  · simp only [sepRows, List.mem_replicate] at hr
+    rw [hr.2]; exact Nat.zero_le _
 
 end Pdt.Grid
